@@ -125,6 +125,9 @@ func (w *wrapper) startStream(ctx context.Context, method string) (context.Conte
 	md = cloneMD(md) // to prevent client from concurrently modifying the metadata
 
 	ctx = metadata.NewIncomingContext(ctx, md)
+	// ... and it arrives as incoming only: over a connection the handler's context has no outgoing metadata,
+	// so nothing of the caller's travels on by itself with the calls the handler makes
+	ctx = metadata.NewOutgoingContext(ctx, nil)
 	// attach a TransportStream to the context, so the server can send headers
 	sts := &serverTransportStream{method: method}
 	ctx = grpc.NewContextWithServerTransportStream(ctx, sts)
